@@ -199,6 +199,28 @@ def sql_clause_terms_rule(program, res, rule="C17-S11"):
                             f"one all-NULL row — Pandas and Polars return no record (a count above it: 1 vs 0)")
 
 
+def _selects_named_columns(helper) -> bool:
+    """helper(self, df, columns): every return is `df.loc[:, cols]` with cols built from the `columns` parameter only"""
+    ps = helper.params()
+    if len(ps) < 3:
+        return False
+    frame, cols = ps[1], ps[2]
+    g = cfgmod.build(helper.node)
+    d = depsmod.Deps(g, ps)
+    rets = g.returns()
+    if not rets:
+        return False
+    for r in rets:
+        v = r.stmt.value
+        if not (isinstance(v, ast.Subscript) and isinstance(v.value, ast.Attribute) and v.value.attr == "loc"
+                and unparse(v.value.value) == frame and isinstance(v.slice, ast.Tuple) and len(v.slice.elts) == 2):
+            return False
+        roots = d.roots_at(r, v.slice.elts[1])
+        if not depsmod.has_root(roots, cols) or frame in roots:
+            return False
+    return True
+
+
 def run(program, res, tier):
     res.rule("C17-S11", "SQL record conversions emit GROUP BY / ORDER BY only with terms")
     sql_clause_terms_rule(program, res)
@@ -481,6 +503,23 @@ def run(program, res, tier):
                                     f"differently from the control table gets its values under the wrong names", sub)
                     elif depsmod.has_root(roots, spec):
                         res.ok("C17-S5", f"PandasModelBase.{mname}: `{unparse(sub)[:60]}` orders the columns by the record specification")
+                    else:
+                        res.abstain("C17-S5", f"{mname}: {unparse(sub)[:60]}", "column list of unknown origin")
+                # the same selection made by a helper method: `data = self.helper(data, columns)` whose result is `df.loc[:, columns]`
+                if isinstance(sub, ast.Call) and isinstance(sub.func, ast.Attribute) and unparse(sub.func.value) == "self" \
+                        and len(sub.args) == 2 and unparse(sub.args[0]) == "data" and not sub.keywords:
+                    helper = program.cls("pandas_base", "PandasModelBase").find_method(sub.func.attr)
+                    if helper is None or not _selects_named_columns(helper):
+                        continue
+                    n_sel += 1
+                    roots = di.roots_at(node, sub.args[1])
+                    if "data" in roots or depsmod.has_root(roots, "data.columns"):
+                        res.fail_at("C17-S5", impl, f"column-order-from-input:{mname}",
+                                    f"`{unparse(sub)[:90]}` takes the column order from the input frame; {mname} later relabels columns "
+                                    f"by position", sub)
+                    elif depsmod.has_root(roots, spec):
+                        res.ok("C17-S5", f"PandasModelBase.{mname}: `{unparse(sub)[:60]}` ({sub.func.attr} selects the named columns in the "
+                                         f"order given) orders the columns by the record specification")
                     else:
                         res.abstain("C17-S5", f"{mname}: {unparse(sub)[:60]}", "column list of unknown origin")
         if n_sel == 0:
